@@ -238,7 +238,8 @@ func c12Protocol(c *Case) {
 	// Select, driven by hand with extra MoveNext calls
 	extra := 1 + g.Intn(5)
 	rec := &xdoc.Rec{Limit: OpLimit}
-	sel := c.iterate(ce.Select(xdoc.NewNav(ctx, rec)), d, rec, extra)
+	it1 := ce.Select(xdoc.NewNav(ctx, rec))
+	sel := c.iterate(it1, d, rec, extra)
 	c.Count("relation:extra_movenext")
 	if sel.panic != nil || sel.budget {
 		// aborts are the business of C07/C15; the relations below need a completed iteration
@@ -280,6 +281,43 @@ func c12Protocol(c *Case) {
 		bad("EVALUATE-SEQUENCE-DIFFERS", map[string]interface{}{"select_sequence": xdoc.Labels(sel.seq), "evaluate_sequence": xdoc.Labels(ev.seq),
 			"evaluate_type": evKind, "evaluate_panic": ev.panic.String(), "evaluate_extra_true": ev.extraTrue})
 		return
+	}
+	// a finished iterator stays finished whatever happens to its Expr afterwards: Select the same Expr again
+	// (iterator 2 created, not yet advanced), poll the drained iterator 1, then drive iterator 2 - which must
+	// deliver the whole sequence, none of it having gone to iterator 1
+	if c.Index%2 == 1 {
+		rec3 := &xdoc.Rec{Limit: OpLimit}
+		var second protoObs
+		late := 0
+		func() {
+			defer func() {
+				if x := recover(); x != nil {
+					second.panic, second.budget = classify(x)
+				}
+			}()
+			it2 := ce.Select(xdoc.NewNav(ctx, rec3))
+			for i := 0; i < extra; i++ {
+				if it1.MoveNext() {
+					late++
+				}
+			}
+			second = c.iterate(it2, d, rec3, extra)
+			for i := 0; i < extra; i++ {
+				if it1.MoveNext() {
+					late++
+				}
+			}
+		}()
+		c.Count("relation:drained_iterator_after_second_select")
+		if late > 0 {
+			bad("MOVENEXT-TRUE-AFTER-FALSE", map[string]interface{}{"when": "the drained iterator was polled again after a second Select on the same Expr", "returned_true": late, "sequence": xdoc.Labels(sel.seq)})
+			return
+		}
+		if second.panic != nil || second.budget || second.extraTrue > 0 || second.currentBad || !SameNodes(second.seq, sel.seq) {
+			bad("SECOND-SELECT-SEQUENCE-DIFFERS", map[string]interface{}{"select_sequence": xdoc.Labels(sel.seq), "second_select_sequence": xdoc.Labels(second.seq),
+				"second_panic": second.panic.String(), "second_extra_true": second.extraTrue})
+			return
+		}
 	}
 	// count(E) equals the length of the sequence
 	csrc := "count(" + src + ")"
